@@ -176,7 +176,25 @@ def run_case(ctx, drv, case, rng, thorough=False, verbose=False):
     try:
         if grid is None:
             grid = make_grid(case)
-        grid.setCurrentArea(start, end, lv)
+            for h in case.get("history", []):      # replay: bring a fresh object into the state the failing run had
+                hs = np.array([float(fr(x)) for x in h["start"]])
+                he = np.array([float(fr(x)) for x in h["end"]])
+                try:
+                    if h.get("mode") == "integrate-first":
+                        grid.integrate(mono_function(tuple([0] * dim), np.zeros(dim), np.ones(dim)), h["lv"], hs, he)
+                    else:
+                        grid.setCurrentArea(hs, he, h["lv"])
+                        grid.get_points_and_weights()
+                except Exception:  # noqa: BLE001
+                    pass
+        if case.get("mode") == "integrate-first":
+            # let `integrate` itself set the area (as the combination loop does), then read the grid WITHOUT refreshing it
+            try:
+                grid.integrate(mono_function(tuple([0] * dim), np.zeros(dim), np.ones(dim)), lv, start, end)
+            except Exception:  # noqa: BLE001 -- classified by the explicit calls below
+                grid.setCurrentArea(start, end, lv)
+        else:
+            grid.setCurrentArea(start, end, lv)
         P, W = grid.get_points_and_weights()
         N = [int(x) for x in grid.levelToNumPoints(lv)]
         P = [tuple(float(x) for x in p) for p in P]
@@ -252,6 +270,28 @@ def run_case(ctx, drv, case, rng, thorough=False, verbose=False):
                 same = False
             if not same:
                 corr("tens", "%s P %s W %s" % (impl_N, P[:8], W[:8]), model_line)
+
+    # Gauss-Legendre: the affine map [-1,1] -> [start,end] of the code vs. the model (leggauss output as exact input)
+    if fam == "GaussLegendre" and drv is not None and cnt_ok:
+        import numpy.polynomial.legendre as legendre
+        for d in range(dim):
+            xi, om = legendre.leggauss(N[d])
+            m = drv.ask("gl %s %s %s %s" % (fstr(S[d]), fstr(E[d]), ",".join(fstr(float(x)) for x in xi), ",".join(fstr(float(x)) for x in om)))
+            try:
+                mP, mW = m[2:].split(" W ")
+                mP = [float(parse_frac(x)) for x in mP.strip("[]").split(",")]
+                mW = [float(parse_frac(x)) for x in mW.strip("[]").split(",")]
+                cP = [float(x) for x in grid.coordinate_array[d]]
+                cW = [float(x) for x in grid.weights[d]]
+                scale = max(abs(start[d]), abs(end[d]), 1e-300)
+                same = (len(mP) == len(cP) and len(mW) == len(cW)
+                        and all(abs(x - y) <= 1e-13 * scale for x, y in zip(cP, mP))
+                        and all(abs(x - y) <= 1e-13 * max(abs(y), 1e-300) for x, y in zip(cW, mW)))
+            except Exception:  # noqa: BLE001
+                same = False
+            if not same:
+                corr("gl-affine-map", {"dim": d, "coords": [float(x) for x in grid.coordinate_array[d]][:6]}, m[:300])
+                break
 
     # ---------------- (2c) complete rule: sum of weights, exactness, integrate
     n_moments = 0
@@ -441,7 +481,7 @@ def malformed_stream(ctx, drv):
     if impl != m:
         ctx.corr_break("C08/malformed-boundary-and-modified", {"line": "g1 trap 0 1 0 1/2 2 1 1"}, {"impl": impl, "model": m})
     for line in ["", "g1", "g1 trap 0 1 0 1/2 2 1", "g1 trap 0 1 0 1/0 2 1 0", "g1 gauss 0 1 0 1 2 1 0", "tens trap 1 0 0,0 1,1 0 1 2,2",
-                 "mom trap 1 0 0 1 0 1 2 1,1", "g1 trap 0 1 0 1 -1 1 0", "g1 simp 0 1 0 1 2 0 1", "g1 trap 0 1 1/2 1/2 2 1 0",
+                 "mom trap 1 0 0 1 0 1 2 1,1", "gl 0 1 1 1,2", "gl 0 1 - -", "gl 0 1/0 1 1", "g1 trap 0 1 0 1 -1 1 0", "g1 simp 0 1 0 1 2 0 1", "g1 trap 0 1 1/2 1/2 2 1 0",
                  "tens trap 1 0 - - - - -"]:
         m = drv.ask(line)
         ctx.count("malformed_lines")
@@ -464,8 +504,8 @@ def run(ctx):
     drv = ctx.driver("drv_c08")
     malformed_stream(ctx, drv)
     rng = ctx.rng
-    n_groups = 260 if not thorough else 2600
-    budget = 75 if not thorough else 560
+    n_groups = 1500 if not thorough else 14000
+    budget = 80 if not thorough else 500
     # a deterministic sweep first: every family x boundary flag x touching pattern x levels 0..3 in 1-D
     sweep = []
     for fam in FAMILIES:
@@ -492,6 +532,7 @@ def run(ctx):
             break
         case = gen_case(rng, thorough)
         grid = None
+        history = []
         for rep in range(3):     # the same grid object serves several areas, as in the extend-split strategy
             if rep > 0:
                 A = [fr(x) for x in case["a"]]
@@ -500,6 +541,13 @@ def run(ctx):
                 case = dict(case, start=[fstr(x) for x in S], end=[fstr(x) for x in E],
                             lv=gen_levels(rng, case["dim"], max(case["lv"]) if max(case["lv"]) > 0 else 1, case["family"]))
             c = canon(case)
+            if rng.random() < 0.3:
+                c["mode"] = "integrate-first"
+                ctx.count("mode_integrate_first")
+            if grid is None:
+                history = []
+            if history:
+                c["history"] = list(history)
             if grid is None:
                 try:
                     grid = make_grid(c)
@@ -509,10 +557,10 @@ def run(ctx):
                     break
             c_run = dict(c, _grid=grid)
             ok = run_case(ctx, drv, c_run, rng, thorough)
+            history.append({"start": c["start"], "end": c["end"], "lv": c["lv"], "mode": c.get("mode", "set-area")})
             if not ok:
-                # replays build a fresh grid: make sure the failure does not depend on the reused object
                 ctx.count("failing_cases")
-                grid = None
+                grid = None          # continue with a fresh object
             account(ctx, c, k)
             k += 1
         if (len(ctx.violations) >= 40) or len(ctx.corr_breaks) >= 40:
